@@ -596,7 +596,13 @@ func (x *Exec) contractCallSig(fr *Frame, st *State, name string, names []string
 		o.Clause = rq.Src
 		x.vc.assume(Implies(st.Reach, g))
 	}
-	if callee != nil && pureScalarFn(callee, fc) {
+	canon := true
+	for _, a := range args {
+		if a.K == KPtr && !a.isCanonical() {
+			canon = false // pointers into objects have no single reference to stand for them
+		}
+	}
+	if callee != nil && canon && pureScalarFn(callee, fc) {
 		// deterministic: one uninterpreted application, constrained by the ensures
 		return x.pureCallValue(fr, st, callee, fc, pkg, args)
 	}
